@@ -1773,3 +1773,65 @@ Proof.
   - apply G. apply (tablet_source_ok cl k t s tt); [apply Hco; eauto|assumption].
   - apply G. apply (ring_source_ok cl k t s Hs (Hk _ _ Hks) Eft).
 Qed.
+
+(* ====================================================================================== *)
+(* 7. the executable property predicate: route_prop implies prop_obs_ok                      *)
+(*    (so prop_obs_ok = false, the driver's `viol`, refutes route_prop for that observation) *)
+(* ====================================================================================== *)
+Theorem prop_obs_complete cl cfg st values spec_tok obs :
+  (forall t, spec_tok = Some t ->
+     PartKey.ps_calculate_token true (st_part st) (st_ncols st) (st_wire st) values = Ok (Some t)) ->
+  route_prop cl cfg st values obs -> prop_obs_ok cl cfg st values spec_tok obs = true.
+Proof.
+  intros Htok P. unfold prop_obs_ok.
+  destruct (st_table st) as [k|] eqn:Est; [|reflexivity].
+  destruct spec_tok as [t|]; [|reflexivity].
+  destruct (routing_request st cfg values) as [rq|e] eqn:Erq; [|reflexivity].
+  destruct (pol_token_aware (ex_pol cfg)) eqn:Eta; [|reflexivity]. cbn [negb].
+  destruct (ks_lookup (c_keyspaces cl) (fst k)) as [s|] eqn:Eks; [|reflexivity].
+  destruct (filter (fun r => usable cl (ex_pol cfg) rq (fst r)) (owners cl k t s)) as [|u us] eqn:Ef; [reflexivity|].
+  assert (Hex : exists r, In r (owners cl k t s) /\ usable cl (ex_pol cfg) rq (fst r) = true).
+  { exists u. apply (filter_In (fun r => usable cl (ex_pol cfg) rq (fst r)) u (owners cl k t s)). rewrite Ef. now left. }
+  destruct (P k t s Est (Htok t eq_refl) Eta Eks rq Erq Hex) as (n & sh & r & -> & Hr & Hfst & Hu & Hd & Hs).
+  rewrite <- Ef. apply andb_true_iff. split; [apply andb_true_iff; split|].
+  - apply existsb_exists. exists r. split; [apply filter_In; split; [assumption|now rewrite Hfst]|].
+    rewrite Hfst. apply N.eqb_refl.
+  - destruct (pref_dc (eff_pref (ex_pol cfg) rq)) as [d|] eqn:Ep; [|reflexivity].
+    destruct (existsb (fun r0 => c_alive cl (fst r0) && in_dc (c_dcf cl) d (fst r0)) (owners cl k t s)) eqn:Ee;
+      [|reflexivity]. cbn [negb orb].
+    apply existsb_exists in Ee. destruct Ee as (r' & Hr' & Hb). apply andb_true_iff in Hb.
+    apply (Hd d eq_refl). exists r'. tauto.
+  - destruct (pool_sharder (c_pool cl n)) as [shd|] eqn:Esh; [|reflexivity].
+    destruct Hs as (r' & Hr' & Hf' & Hs'); [congruence|].
+    apply existsb_exists. exists r'. split; [assumption|]. rewrite Hf', N.eqb_refl. cbn [andb].
+    destruct (pool_has_shard (c_pool cl n) (shard_u16 (snd r'))) eqn:Eh; [|reflexivity].
+    cbn [negb orb]. apply N.eqb_eq. now apply Hs'.
+Qed.
+
+(* ... and conversely: prop_obs_ok is exactly route_prop for that observation (given the token) *)
+Theorem prop_obs_sound cl cfg st values t obs :
+  PartKey.ps_calculate_token true (st_part st) (st_ncols st) (st_wire st) values = Ok (Some t) ->
+  prop_obs_ok cl cfg st values (Some t) obs = true -> route_prop cl cfg st values obs.
+Proof.
+  intros Htok Hb k t' s Hst Htok' Hta Hks rq Hrq own Hex. subst own.
+  rewrite Htok in Htok'. injection Htok' as <-.
+  unfold prop_obs_ok in Hb. rewrite Hst, Hrq, Hta, Hks in Hb. cbn [negb] in Hb.
+  destruct Hex as (r0 & Hr0 & Hu0).
+  destruct (filter (fun r => usable cl (ex_pol cfg) rq (fst r)) (owners cl k t s)) as [|u us] eqn:Ef.
+  { assert (H0 : In r0 (filter (fun r => usable cl (ex_pol cfg) rq (fst r)) (owners cl k t s))) by (apply filter_In; tauto).
+    rewrite Ef in H0. destruct H0. }
+  rewrite <- Ef in Hb. destruct obs as [[n sh]|]; [|discriminate].
+  apply andb_true_iff in Hb. destruct Hb as [Hb Hshard]. apply andb_true_iff in Hb. destruct Hb as [Hnode Hpref].
+  apply existsb_exists in Hnode. destruct Hnode as (r & Hr & Hn). apply N.eqb_eq in Hn.
+  apply filter_In in Hr. destruct Hr as [Hr Hur].
+  exists n, sh, r. split; [reflexivity|]. split; [assumption|]. split; [assumption|].
+  split; [now rewrite <- Hn|]. split.
+  - intros d Hp (r' & Hr' & Ha' & Hd'). rewrite Hp in Hpref.
+    apply orb_true_iff in Hpref. destruct Hpref as [Hne|Hin]; [|assumption].
+    apply negb_true_iff in Hne. rewrite <- not_true_iff_false in Hne. exfalso. apply Hne.
+    apply existsb_exists. exists r'. split; [assumption|]. now rewrite Ha', Hd'.
+  - intros Hs. destruct (pool_sharder (c_pool cl n)); [|congruence].
+    apply existsb_exists in Hshard. destruct Hshard as (r' & Hr' & Hb'). apply andb_true_iff in Hb'.
+    destruct Hb' as [H1 H2]. apply N.eqb_eq in H1. exists r'. repeat split; try assumption.
+    intros Hh. rewrite Hh in H2. cbn in H2. now apply N.eqb_eq.
+Qed.
